@@ -1,9 +1,89 @@
 """C06 — the device description read by the client equals the device's configuration."""
+import random
 import struct
 from common import Prop, hexs, unhex, exc_name
 from ref import ref_frame
 
-NAMES = ["", "a", "chan0", "x" * 64, "é", "ñandú", "名前", "🙂ok", "a b\tc", "tab\x01ctl", "ÿ" * 7]
+# what str.strip() removes (Unicode White_Space + the C0 separators 0x1c..0x1f), plus look-alikes it does not
+WS = [" ", "\t", "\n", "\r", "\x0b", "\x0c", "\x1c", "\x1d", "\x1e", "\x1f", "\x85", "\xa0", "\u1680", "\u2000",
+      "\u2003", "\u200a", "\u2028", "\u2029", "\u202f", "\u205f", "\u3000"]
+NOT_WS = ["\u200b", "\u200d", "\u2060", "\ufeff", "\x7f", "\x01", "\x08", "\x1b", "\u180e"]
+COMBINING = ["\u0300", "\u0301", "\u0308", "\u0327", "\u20d7", "\u3099", "\ufe0f", "\U000e0101"]
+BMP = ["\xe9", "\xf1", "\xdf", "\xff", "\x80", "\u07ff", "\u0800", "\u540d", "\u524d", "\u20ac", "\ud7ff", "\ue000",
+       "\ufffd", "\uffff", "\u03c9", "\xb0"]
+ASTRAL = ["\U0001f642", "\U00010000", "\U0001f468", "\U0002a6d6", "\U000fffff", "\U00100000", "\U0010ffff", "\U0001d11e"]
+NAMES = ["", "a", "chan0", "x" * 64, "\xe9", "\xf1and\xfa", "\u540d\u524d", "\U0001f642ok", "a b\tc", "tab\x01ctl", "\xff" * 7,
+         " x", "x ", "\tx\n", " ", "  ", "\x1cx\x1f", "\x1c", "\x85x\xa0", "\xa0", "\u2003x\u3000", "e\u0301", "\u0301x",
+         "\U0010ffff", "a\U00010000b", "\ufeffbom", "x\u2028", "\r\n", "Temperatur [\xb0C]", "\u03c9_ref", "\x7f"]
+FRAME_NAME_MAX = 65524
+
+
+def rand_name(r, maxlen=12):
+    """a text without NUL: ASCII, white space (also at the ends / alone), controls, combining marks, 2-4 byte characters"""
+    k = r.random()
+    if k < 0.08:
+        return r.choice(NAMES)
+    n = r.randrange(0, maxlen + 1)
+    pools = [WS, NOT_WS, COMBINING, BMP, ASTRAL, [chr(c) for c in range(0x21, 0x7f)]]
+    w = r.choice([[1, 1, 1, 1, 1, 6], [3, 1, 1, 1, 1, 2], [1, 1, 3, 3, 3, 1], [0, 0, 0, 0, 0, 1], [1, 0, 0, 0, 0, 0]])
+    s = "".join(r.choice(r.choices(pools, w)[0]) for _ in range(n))
+    if r.random() < 0.06:
+        s += chr(r.choice([r.randrange(1, 0xd800), r.randrange(0xe000, 0x110000)]))
+    k = r.random()
+    if k < 0.15:
+        s = r.choice(WS) + s
+    elif k < 0.30:
+        s = s + r.choice(WS)
+    elif k < 0.40:
+        s = r.choice(WS) + s + r.choice(WS)
+    return s
+
+
+def long_name(r, nbytes):
+    """a name whose UTF-8 encoding has exactly nbytes (>= 2) bytes, white space at both ends"""
+    out, left = [], nbytes - 2
+    while left > 0:
+        c = r.choice(["z", "\xe9", "\u540d", "\U0001f642", "\u0301", "\t"])
+        if len(c.encode()) <= left:
+            out.append(c)
+            left -= len(c.encode())
+    s = " " + "".join(out) + "\n"
+    assert len(s.encode()) == nbytes
+    return s
+
+
+BAD_UTF8 = [b"\xff", b"\xfe", b"\x80", b"\xbf", b"\xc3", b"\xe2\x82", b"\xf0\x9f\x99", b"\xc0\xaf", b"\xc1\xbf", b"\xc0\x80",
+            b"\xe0\x80\xaf", b"\xe0\x9f\xbf", b"\xf0\x80\x80\xaf", b"\xf0\x8f\xbf\xbf", b"\xed\xa0\x80", b"\xed\xbf\xbf",
+            b"\xed\xa0\xbd\xed\xb9\x82", b"\xf4\x90\x80\x80", b"\xf5\x80\x80\x80", b"\xf8\x88\x80\x80\x80", b"\xc3\x28",
+            b"\xe2\x28\xa1", b"\xe2\x82\x28", b"\xf0\x28\x8c\xbc", b"\xf0\x90\x28\xbc", b"\xf0\x28\x8c\x28", b"\xc3\xc3\xa9",
+            b"\xe2\x82\xac\x80", b"\xa9\xc3"]
+GOOD_EDGE = [b"\x7f", b"\xc2\x80", b"\xdf\xbf", b"\xe0\xa0\x80", b"\xed\x9f\xbf", b"\xee\x80\x80", b"\xef\xbf\xbf",
+             b"\xf0\x90\x80\x80", b"\xf4\x8f\xbf\xbf", b"\xf1\x80\x80\x80", b"\xec\xbf\xbf", b"\xe1\x80\x80", b"\xf3\xbf\xbf\xbf"]
+
+
+def rand_bytes_utf8ish(r):
+    """byte strings around the borders of well-formed UTF-8: random bytes, valid text with one byte damaged / dropped /
+    inserted, lead bytes with random continuations"""
+    k = r.randrange(7)
+    if k == 0:
+        return bytes(r.randrange(256) for _ in range(r.randrange(0, 7)))
+    if k == 1:
+        return bytes(r.choice([0x00, 0x41, 0x7f, 0x80, 0x8f, 0x90, 0x9f, 0xa0, 0xbf, 0xc0, 0xc1, 0xc2, 0xdf, 0xe0, 0xe1, 0xec, 0xed,
+                               0xee, 0xef, 0xf0, 0xf1, 0xf3, 0xf4, 0xf5, 0xf7, 0xf8, 0xff]) for _ in range(r.randrange(1, 6)))
+    if k == 2:
+        lead = r.choice([0xc0, 0xc1, 0xc2, 0xdf, 0xe0, 0xe1, 0xec, 0xed, 0xee, 0xef, 0xf0, 0xf1, 0xf3, 0xf4, 0xf5])
+        n = 1 if lead < 0xe0 else 2 if lead < 0xf0 else 3
+        return bytes([lead] + [r.choice([0x7f, 0x80, 0x8f, 0x90, 0x9f, 0xa0, 0xbf, 0xc0]) for _ in range(r.choice([n, n, n, n - 1, n + 1]))])
+    b = bytearray(rand_name(r, 6).encode() or b"a")
+    if k == 3:
+        b[r.randrange(len(b))] = r.randrange(256)
+    elif k == 4:
+        del b[r.randrange(len(b))]
+    elif k == 5:
+        b.insert(r.randrange(len(b) + 1), r.choice([0x80, 0xbf, 0xc3, 0xe2, 0xf0, 0xff, 0x00]))
+    else:
+        b = bytearray(r.choice(GOOD_EDGE + BAD_UTF8)) + b
+    return bytes(b)
 
 
 def _mods():
@@ -15,73 +95,170 @@ def _mods():
     return Parser, ParseRecv, ParseRecvCb, DParseFrame, EParseId, Device, DeviceChannel
 
 
+# ---------------------------------------------------------------------------------------------------------------
+# whole handshakes: the real client under the virtual-time runtime against the harness-owned reference device
+# ---------------------------------------------------------------------------------------------------------------
+
+def rand_chan(r, namelen=12):
+    """every byte field over its whole range 0..255"""
+    return dict(en=r.random() < 0.5, type=r.randrange(256), vdim=r.randrange(256), div=r.randrange(256),
+                mlen=r.randrange(256), name=rand_name(r, namelen))
+
+
+def rand_chmax(r):
+    k = r.random()
+    return 0 if k < 0.08 else 255 if k < 0.10 else r.randrange(1, 6) if k < 0.9 else r.randrange(6, 40)
+
+
+def rand_byte(r):
+    """0..255 with the borders and single bits favoured"""
+    return r.choice([r.randrange(256), r.randrange(256), r.choice([0, 1, 2, 3, 4, 8, 16, 32, 64, 127, 128, 252, 253, 254, 255])])
+
+
+def read_description(h):
+    d = h.dev
+    return (d.data.chmax, d.data.flags, d.data.rxpadding, d.data.div_supported, d.data.ack_supported,
+            [(c.data.chan, c.data.en, c.data._type, c.data.vdim, c.data.div, c.data.mlen, c.data.name, c.data.dtype, c.data.critical)
+             for c in (d.channel_get(i) for i in range(d.data.chmax))])
+
+
+def want_description(chans, flags, rxpadding):
+    """the property, from the configuration alone"""
+    return (len(chans), flags, rxpadding, bool(flags & 1), bool(flags & 2),
+            [(i, bool(c["en"]), c["type"], c["vdim"], c["div"], c["mlen"], c["name"], c["type"] & 0x1F, bool(c["type"] & 0x80))
+             for i, c in enumerate(chans)])
+
+
+def connect_once(chans, flags, rxpadding, variant="c"):
+    """one connect() of a fresh client (variant: c = CommHandler, n = NxscopeHandler, optional digits = a write padding
+    already configured on the interface); returns (description tuple | exception, sim errors)"""
+    import vsim
+    import refdev
+    res = {}
+
+    def scenario(sim):
+        from nxslib.nxscope import NxscopeHandler
+        from nxslib.comm import CommHandler
+        from nxslib.proto.parse import Parser
+        dev = refdev.RefDevice(chans, flags=flags, rxpadding=rxpadding)
+        link = refdev.make_link(sim, dev)
+        if variant[1:]:
+            link.write_padding = int(variant[1:])
+        h = NxscopeHandler(link, Parser()) if variant[0] == "n" else CommHandler(link, Parser())
+        try:
+            h.connect()
+            res["got"] = read_description(h)
+        finally:
+            h.disconnect()
+
+    rr, sim = vsim.run_sim(scenario, real_limit=30.0)
+    if isinstance(rr, BaseException):
+        return rr, sim.errors
+    return res.get("got"), sim.errors
+
+
+def fmt_description(d):
+    chmax, flags, rxp, divs, acks, chans = d
+    cs = ";".join(f"{i},{int(en)},{ty},{vdim},{div},{mlen},{hexs(name.encode('utf-8'))},{dtype},{int(crit)}"
+                  for i, en, ty, vdim, div, mlen, name, dtype, crit in chans) or "-"
+    return f"ok {chmax} {flags} {rxp} {int(divs)} {int(acks)} {cs}"
+
+
+def parse_connect_line(t):
+    """info connect <variant> <flags> <rxp> <chans>"""
+    chans = []
+    if t[5] != "-":
+        for c in t[5].split(";"):
+            en, ty, vdim, div, mlen, nh = c.split(",")
+            chans.append(dict(en=bool(int(en)), type=int(ty), vdim=int(vdim), div=int(div), mlen=int(mlen),
+                              name=unhex(nh).decode("utf-8")))
+    return t[2], int(t[3]), int(t[4]), chans
+
+
+def connect_line(variant, flags, rxp, chans):
+    cs = ";".join(f"{int(c['en'])},{c['type']},{c['vdim']},{c['div']},{c['mlen']},{hexs(c['name'].encode('utf-8'))}"
+                  for c in chans) or "-"
+    return f"info connect {variant} {flags} {rxp} {cs}"
+
+
 def session_description(seed):
-    import random
+    """several sessions of the SAME client object; between sessions the device is reconfigured (same or different
+    channel count); every byte field of the configuration is drawn from 0..255"""
     import vsim
     import refdev
     r = random.Random(seed)
     res = {}
 
     def rand_chans(n):
-        out = []
-        for i in range(n):
-            t = r.choice([2, 3, 6, 10, 11, 12, 17, 18]) | r.choice([0, 0, 0x80, 0x20, 0x40, 0xE0])
-            out.append(dict(en=r.random() < 0.4, type=t, vdim=r.randrange(1, 9), div=r.choice([0, 0, 5, 200, 255]),
-                            mlen=r.choice([0, 0, 1, 4, 16]), name=r.choice(NAMES)[:20]))
-        return out
+        return [rand_chan(r, 12 if n < 50 else 3) for _ in range(n)]
 
     def scenario(sim):
         from nxslib.nxscope import NxscopeHandler
         from nxslib.comm import CommHandler
         from nxslib.proto.parse import Parser
-        n = r.randrange(1, 6)
-        dev = refdev.RefDevice(rand_chans(n), flags=r.randrange(4), rxpadding=r.choice([0, 0, 4, 16]))
+        n = rand_chmax(r)
+        dev = refdev.RefDevice(rand_chans(n), flags=rand_byte(r), rxpadding=rand_byte(r))
         link = refdev.make_link(sim, dev)
         if r.random() < 0.4:
-            link.write_padding = r.choice([2, 8, 32])        # a padding already configured on the interface
+            link.write_padding = r.choice([2, 8, 32, 255])        # a padding already configured on the interface
         high = r.random() < 0.5
         h = NxscopeHandler(link, Parser()) if high else CommHandler(link, Parser())
+        res["history"] = [f"interface write padding before the first connect: {link.write_padding}"]
         for session in range(r.randrange(2, 4)):
             h.connect()
-            d = h.dev
-            got = (d.data.chmax, d.data.flags, d.data.rxpadding,
-                   [(c.data.en, c.data._type, c.data.vdim, c.data.div, c.data.mlen, c.data.name, c.data.dtype, c.data.critical)
-                    for c in (d.channel_get(i) for i in range(d.data.chmax))])
-            want = (len(dev.chans), dev.flags, dev.rxpadding,
-                    [(bool(c["en"]), c["type"], c["vdim"], c["div"], c["mlen"], c["name"], c["type"] & 0x1F, bool(c["type"] & 0x80))
-                     for c in dev.chans])
+            got = read_description(h)
+            want = want_description(dev.chans, dev.flags, dev.rxpadding)
             if got != want:
-                res["bad"] = (session, want, got)
+                res["bad"] = (session, want, got, "NxscopeHandler" if high else "CommHandler")
                 h.disconnect()
                 return
+            res["history"].append(f"session {session + 1} (read correctly, then disconnect): {want!r}"[:700])
             h.disconnect()
             # the device is reconfigured / replaced between sessions (after disconnect every channel is disabled)
-            m = len(dev.chans) if r.random() < 0.6 else r.randrange(1, 6)
+            m = len(dev.chans) if r.random() < 0.6 else rand_chmax(r)
             dev.chans = rand_chans(m)
-            dev.flags = r.randrange(4)
-            dev.rxpadding = r.choice([0, 0, 4, 16, dev.rxpadding])
+            dev.flags = rand_byte(r)
+            dev.rxpadding = r.choice([0, rand_byte(r), dev.rxpadding])
             dev.silent = False
 
-    rr, sim = vsim.run_sim(scenario, real_limit=30.0)
+    rr, sim = vsim.run_sim(scenario, real_limit=40.0)
     if isinstance(rr, BaseException) or sim.errors:
         return {"key": "session-description", "seed": seed, "case": f"session seed={seed}",
                 "what": "handshake session failed: " + repr(rr)[:300] + repr([(a, repr(b)[:200]) for a, b, _ in sim.errors]),
                 "expected": "-", "observed": "-"}
     if "bad" in res:
-        k, want, got = res["bad"]
+        k, want, got, cls = res["bad"]
         return {"key": "session-description", "seed": seed, "case": f"session seed={seed}",
-                "what": f"in session {k + 1} of the same client object the reported description differs from the device's configuration",
-                "expected": repr(want)[:600], "observed": repr(got)[:600]}
+                "what": f"after connect() number {k + 1} of the same {cls} object the reported Device/DeviceChannel data "
+                        f"differ from the device's configuration: {describe_diff(want, got)}",
+                "expected": repr(want)[:1500], "observed": repr(got)[:1500], "history": res.get("history", [])}
     return None
+
+
+def describe_diff(want, got):
+    names = ["chmax", "flags", "rxpadding", "div_supported", "ack_supported"]
+    out = [f"{n}: configured {w!r}, client reports {g!r}" for n, w, g in zip(names, want[:5], got[:5]) if w != g]
+    fn = ["chan", "en", "type", "vdim", "div", "mlen", "name", "dtype", "critical"]
+    if len(want[5]) != len(got[5]):
+        out.append(f"{len(want[5])} channels configured, {len(got[5])} reported")
+    for cw, cg in zip(want[5], got[5]):
+        for n, w, g in zip(fn, cw, cg):
+            if w != g:
+                out.append(f"channel {cw[0]} {n}: configured {w!r}, client reports {g!r}")
+    return "; ".join(out[:4])
 
 
 class C06(Prop):
     id = "C06"
     lean_module = "NxsModel.Props.C06"
     rule = ("cmninfo / chinfo / ack encode (device side) and decode (client side): all 256 values of each one-byte "
-            "field with the others random, names from ASCII / 2-4 byte UTF-8 / long (to the frame limit), with or "
-            "without trailing NUL, boundary and random 32-bit return codes, short / wrong-kind frames; "
-            "distinct = distinct (op,input); non-trivial = all")
+            "field with the others random, names = random texts (ASCII, white space also at the ends or alone, C0 "
+            "controls, NEL/NBSP, combining marks, 2-4 byte characters, long to the frame limit) as bytes and as code "
+            "points, with or without NUL terminator / padding / text after the NUL, name fields that are not "
+            "well-formed UTF-8 (bad lead / continuation bytes, truncated, overlong, surrogates, > U+10FFFF, also after "
+            "the NUL), validUtf8 / utf8Encode against CPython on random + structured strings, boundary and random "
+            "32-bit return codes, short / wrong-kind frames, whole connect() handshakes of the real client against the "
+            "reference device with every configuration byte from 0..255; distinct = distinct (op,input); non-trivial = all")
 
     def __init__(self):
         Parser, ParseRecv, ParseRecvCb, self.DParseFrame, self.EParseId, self.Device, self.DeviceChannel = _mods()
@@ -98,6 +275,7 @@ class C06(Prop):
             yield f"info cmn {a} {b} {v}", "cmn"
             yield f"info dcmn 2 {hexs(bytes([v, a, b]))}", "dcmn"
             yield f"info dcmn 2 {hexs(bytes([a, v, b]))}", "dcmn"
+            yield f"info dcmn 2 {hexs(bytes([a, b, v]))}", "dcmn"
         for line in ["info cmn 256 0 0", "info cmn -1 0 0", "info dcmn 2 0102", "info dcmn 2 -", "info dcmn 3 010203",
                      "info dcmn 2 01020304", "info dch 2 0102030405", "info dch 3 01020304", "info dch 3 -",
                      "info dack 4 010203", "info dack 4 0102030405", "info dack 5 01020304", "info dack 4 -"]:
@@ -106,16 +284,45 @@ class C06(Prop):
             for v in range(256):
                 vals = [rng.randrange(2), rng.randrange(256), rng.randrange(256), rng.randrange(256), rng.randrange(256)]
                 vals[field] = v if field else v % 2
-                name = rng.choice(NAMES).encode()
-                yield f"info ch {vals[0]} {vals[1]} {vals[2]} {vals[3]} {vals[4]} {hexs(name)}", "ch"
-                raw = bytes([v if field == 0 else vals[0]] + vals[1:]) + name + bytes(rng.choice([0, 0, 1, 3]))
+                name = rand_name(rng)
+                nb = name.encode()
+                yield f"info ch {vals[0]} {vals[1]} {vals[2]} {vals[3]} {vals[4]} {hexs(nb)}", "ch"
+                yield (f"info cht {vals[0]} {vals[1]} {vals[2]} {vals[3]} {vals[4]} "
+                       f"{','.join(str(ord(c)) for c in name) or '-'}"), "cht"
+                tail = rng.choice([b"", b"", b"\0", b"\0\0\0", b"\0" + rand_name(rng, 4).encode(), b"\0x\0y"])
+                raw = bytes([v if field == 0 else vals[0]] + vals[1:]) + nb + tail
                 yield f"info dch 3 {hexs(raw)}", "dch"
-        for name in NAMES + ["n" * 1000, "é" * 3000] + (["z" * 65524, "z" * 65525] if T else ["z" * 65524]):
+        longs = [long_name(rng, 1000), "\xe9" * 3000, long_name(rng, FRAME_NAME_MAX), " " * FRAME_NAME_MAX,
+                 "z" * FRAME_NAME_MAX, "\U0001f642" * (FRAME_NAME_MAX // 4)] + (["z" * (FRAME_NAME_MAX + 1), long_name(rng, 40000)] if T else [])
+        for name in NAMES + longs:
             nb = name.encode()
             yield f"info ch 1 138 3 200 1 {hexs(nb)}", "ch-name"
             yield f"info dch 3 {hexs(bytes([1, 138, 3, 200, 1]) + nb)}", "dch-name"
             yield f"info dch 3 {hexs(bytes([1, 138, 3, 200, 1]) + nb + b'\\0')}", "dch-name-nul"
-        for line in ["info ch 1 256 0 0 0 -", "info ch 1 0 256 0 0 -", "info ch 1 0 0 -1 0 -", "info ch 1 0 0 0 300 -"]:
+        # name fields that are not (or just are) well-formed UTF-8, alone / inside a name / after the NUL
+        hdr = bytes([1, 138, 3, 200, 1])
+        for bad in BAD_UTF8 + GOOD_EDGE:
+            for pre, post in ((b"", b""), (b"ab", b"cd"), (b"ok\0", b""), (b"\xc3\xa9\0\0", b"\0"), (b"", b"\0tail")):
+                yield f"info dch 3 {hexs(hdr + pre + bad + post)}", "dch-utf8"
+        for _ in range(600 if T else 150):
+            yield f"info dch 3 {hexs(hdr + rand_bytes_utf8ish(rng))}", "dch-utf8"
+        # the validator and the encoder themselves against CPython's codec
+        for b in BAD_UTF8 + GOOD_EDGE:
+            yield f"info utf8 {hexs(b)}", "utf8"
+        for lead in range(0x80, 0x100):
+            for c1 in (0x7f, 0x80, 0x8f, 0x90, 0x9f, 0xa0, 0xbf, 0xc0):
+                yield f"info utf8 {hexs(bytes([lead, c1, 0x80, 0x80]))}", "utf8"
+                yield f"info utf8 {hexs(bytes([lead, c1, 0xbf])[:2 + (lead >= 0xe0)])}", "utf8"
+        for _ in range(6000 if T else 2500):
+            yield f"info utf8 {hexs(rand_bytes_utf8ish(rng))}", "utf8"
+        cps = [0, 1, 0x7f, 0x80, 0x7ff, 0x800, 0xfff, 0x1000, 0xd7ff, 0xd800, 0xdbff, 0xdc00, 0xdfff, 0xe000, 0xfffd, 0xffff,
+               0x10000, 0x3ffff, 0x40000, 0xfffff, 0x100000, 0x10ffff]
+        for cp in cps + [rng.randrange(0x110000) for _ in range(400 if T else 150)]:
+            yield f"info enc {cp}", "enc"
+            yield f"info enc 97,{cp},{rng.choice(cps)}", "enc"
+        for line in ["info ch 1 256 0 0 0 -", "info ch 1 0 256 0 0 -", "info ch 1 0 0 -1 0 -", "info ch 1 0 0 0 300 -",
+                     "info cht 1 2 3 4 5 97,55296", "info cht 1 2 3 4 5 56320,97", "info cht 1 2 3 4 5 97,0,98",
+                     "info cht 1 256 0 0 0 97"]:
             yield line, "malformed"
         rs = [0, 1, -1, 2, -2, 127, 128, 255, 256, 32767, 32768, 65535, 65536, 2**31 - 1, -2**31, 2**31, -2**31 - 1, 22, -22]
         rs += [rng.randrange(-2**31, 2**31) for _ in range(300 if T else 60)]
@@ -123,12 +330,45 @@ class C06(Prop):
             yield f"info ack {r}", "ack"
             if -2**31 <= r < 2**31:
                 yield f"info dack 4 {hexs(struct.pack('<i', r))}", "dack"
+        # whole handshakes: every configuration byte from 0..255
+        for k in range(80 if T else 16):
+            n = [0, 1, 2, 255][k] if (k < 4 and (T or k < 3)) else rand_chmax(rng)
+            if n == 255 and not T and k >= 4:
+                n = 7
+            chans = [rand_chan(rng, 12 if n < 50 else 3) for _ in range(n)]
+            if k == 5 and chans:
+                chans[0]["name"] = long_name(rng, FRAME_NAME_MAX)
+            variant = rng.choice(["c", "n"]) + rng.choice(["", "", "", "8", "255"])
+            yield connect_line(variant, rand_byte(rng), rand_byte(rng), chans), "connect"
+        # a device that asks for no rx padding behind an interface that already has a write padding (left over from
+        # an earlier device / set by the user), and one that asks for exactly the padding already set
+        for variant, rxp in (("c8", 0), ("n255", 0), ("c16", 16), ("n3", 200)):
+            yield connect_line(variant, rand_byte(rng), rxp, [rand_chan(rng) for _ in range(rng.randrange(0, 3))]), "connect-preset-padding"
+        for v in ([1, 2, 4, 8, 16, 32, 64, 128, 255] if not T else range(0, 256, 5)):
+            yield connect_line("c", v, 0, [rand_chan(rng)]), "connect-flags"
+            yield connect_line("n", 3, v, [rand_chan(rng)]), "connect-rxpadding"
 
     def impl(self, line):
         t = line.split(" ")
         try:
+            if t[1] == "utf8":
+                # CPython's strict decoder itself (not nxslib): the reference `validUtf8` is validated against
+                try:
+                    unhex(t[2]).decode("utf-8", "strict")
+                    return "ok 1"
+                except UnicodeDecodeError:
+                    return "ok 0"
+            if t[1] == "enc":
+                return "ok " + hexs("".join(chr(int(c)) for c in t[2].split(",")).encode("utf-8", "strict"))
+            if t[1] == "connect":
+                variant, flags, rxp, chans = parse_connect_line(t)
+                got, errs = connect_once(chans, flags, rxp, variant)
+                if isinstance(got, BaseException):
+                    return "err " + exc_name(got)
+                if errs:
+                    return "err thread:" + exc_name(errs[0][1])
+                return fmt_description(got)
             if t[1] == "cmn":
-                ch = [self.DeviceChannel(i, 2, 1, "c") for i in range(0)]
                 # Device asserts len(channels) == chmax; bypass with a light stand-in carrying .data
                 class D:
                     pass
@@ -136,8 +376,11 @@ class C06(Prop):
                 d.data = D()
                 d.data.chmax, d.data.flags, d.data.rxpadding = int(t[2]), int(t[3]), int(t[4])
                 return "ok " + hexs(self.R.frame_cmninfo_encode(d))
-            if t[1] == "ch":
-                name = unhex(t[7]).decode("utf-8")
+            if t[1] in ("ch", "cht"):
+                if t[1] == "ch":
+                    name = unhex(t[7]).decode("utf-8")
+                else:
+                    name = "" if t[7] == "-" else "".join(chr(int(c)) for c in t[7].split(","))
                 c = self.DeviceChannel(0, int(t[3]), int(t[4]), name, en=bool(int(t[2])), div=int(t[5]), mlen=int(t[6]))
                 return "ok " + hexs(self.R.frame_chinfo_encode(c))
             if t[1] == "ack":
@@ -172,10 +415,10 @@ class C06(Prop):
         """whole handshakes under the virtual-time runtime: the description the client reports after connect
         equals the reference device's configuration — also on a reconnect of the SAME client object after the
         device's configuration (same or different channel count, rx padding) changed, and with a write padding
-        already configured on the interface"""
+        already configured on the interface; every configuration byte from 0..255"""
         viol = []
         n = 0
-        for _ in range(60 if tier == "thorough" else 12):
+        for _ in range(60 if tier == "thorough" else 14):
             v = session_description(rng.randrange(1 << 30))
             n += 1
             if v:
@@ -191,7 +434,8 @@ class C06(Prop):
         return self.oracle(obj["case"])
 
     def oracle(self, line, impl_out=None):
-        """device-side encode -> client-side decode gives the configured values; responses are the NxScope encoding"""
+        """device-side encode -> client-side decode gives the configured values; responses are the NxScope encoding;
+        after connect() the Device / DeviceChannel data are the configuration"""
         t = line.split(" ")
         Parser, ParseRecv, ParseRecvCb, DParseFrame, EParseId, Device, DeviceChannel = _mods()
         P = Parser()
@@ -199,9 +443,27 @@ class C06(Prop):
         R = ParseRecv(ParseRecvCb(n, n, n, n, n))
 
         def bad(key, what, exp, obs):
-            return {"key": key, "what": what, "expected": str(exp), "observed": str(obs)}
+            return {"key": key, "what": what, "expected": str(exp)[:1500], "observed": str(obs)[:1500]}
+        if t[1] == "utf8":
+            # judged as the name field of a channel-info response
+            t = ["info", "dch", "3", hexs(bytes([1, 0x2a, 3, 200, 1]) + unhex(t[2]))]
+        elif t[1] == "enc":
+            t = ["info", "cht", "1", "202", "3", "200", "1", t[2]]
         try:
-            if t[1] == "cmn":
+            if t[1] == "connect":
+                variant, flags, rxp, chans = parse_connect_line(t)
+                if not (0 <= flags <= 255 and 0 <= rxp <= 255 and len(chans) <= 255):
+                    return None
+                got, errs = connect_once(chans, flags, rxp, variant)
+                want = want_description(chans, flags, rxp)
+                who = "NxscopeHandler" if variant[0] == "n" else "CommHandler"
+                if isinstance(got, BaseException) or errs:
+                    return bad("connect-description", f"{who}.connect()/disconnect() against the conforming device failed: "
+                               f"{got!r} {[(a, repr(b)[:200]) for a, b, _ in errs]}", want, "-")
+                if got != want:
+                    return bad("connect-description", f"Device/DeviceChannel data after {who}.connect() differ from the "
+                               f"device's configuration: {describe_diff(want, got)}", want, got)
+            elif t[1] == "cmn":
                 vals = [int(x) for x in t[2:5]]
                 if not all(0 <= v <= 255 for v in vals):
                     return None
@@ -215,20 +477,43 @@ class C06(Prop):
                 r = P.frame_cmninfo_decode(P.frame.frame_decode(f))
                 if (r.chmax, r.flags, r.rxpadding) != tuple(vals):
                     return bad("cmninfo-rt", "cmninfo round trip", vals, (r.chmax, r.flags, r.rxpadding))
-            elif t[1] == "ch":
-                en, ty, vdim, div, mlen = [int(x) for x in t[2:7]]
-                nb = unhex(t[7])
-                if not all(0 <= v <= 255 for v in (ty, vdim, div, mlen)) or len(nb) > 65524 or 0 in nb:
+            elif t[1] == "dcmn" and int(t[2]) == 2:
+                raw = unhex(t[3])
+                if len(raw) != 3:
                     return None
-                name = nb.decode()
+                r = P.frame_cmninfo_decode(DParseFrame(EParseId(2), raw))
+                from nxslib.dev import DDeviceData
+                dd = DDeviceData(r.chmax, r.flags, r.rxpadding)
+                got = (r.chmax, r.flags, r.rxpadding, dd.div_supported, dd.ack_supported)
+                want = (raw[0], raw[1], raw[2], bool(raw[1] & 1), bool(raw[1] & 2))
+                if got != want:
+                    return bad("cmninfo-decode", "cmninfo decode (fields and divider / ACK support)", want, got)
+            elif t[1] in ("ch", "cht"):
+                en, ty, vdim, div, mlen = [int(x) for x in t[2:7]]
+                if t[1] == "ch":
+                    nb = unhex(t[7])
+                    if 0 in nb:
+                        return None
+                    try:
+                        name = nb.decode()
+                    except UnicodeDecodeError:
+                        return None
+                else:
+                    cps = [] if t[7] == "-" else [int(c) for c in t[7].split(",")]
+                    if any(c == 0 or 0xd800 <= c < 0xe000 or c >= 0x110000 for c in cps):
+                        return None       # not "a text without NUL"
+                    name = "".join(chr(c) for c in cps)
+                    nb = name.encode("utf-8")
+                if not all(0 <= v <= 255 for v in (ty, vdim, div, mlen)) or len(nb) > FRAME_NAME_MAX:
+                    return None
                 c = DeviceChannel(7, ty, vdim, name, en=bool(en), div=div, mlen=mlen)
                 f = R.frame_chinfo_encode(c)
                 exp = ref_frame(3, bytes([int(bool(en)), ty, vdim, div, mlen]) + nb)
                 if f != exp:
                     return bad("chinfo-bytes", "chinfo response bytes", hexs(exp)[:80], hexs(f)[:80])
                 r = P.frame_chinfo_decode(P.frame.frame_decode(f), 7).data
-                got = (r.en, r._type, r.vdim, r.div, r.mlen, r.name, r.dtype, r.critical)
-                want = (bool(en), ty, vdim, div, mlen, name, ty & 0x1F, bool(ty & 0x80))
+                got = (r.chan, r.en, r._type, r.vdim, r.div, r.mlen, r.name, r.dtype, r.critical)
+                want = (7, bool(en), ty, vdim, div, mlen, name, ty & 0x1F, bool(ty & 0x80))
                 if got != want:
                     return bad("chinfo-rt", "chinfo round trip (fields and derived attributes)", want, got)
             elif t[1] == "dch" and int(t[2]) == 3:
@@ -236,14 +521,14 @@ class C06(Prop):
                 if len(raw) < 5:
                     return None
                 body = raw[5:]
-                nm = body.split(b"\0")[0]
                 try:
-                    body.decode()
+                    text = body.decode("utf-8", "strict")
                 except UnicodeDecodeError:
-                    return None
+                    return None               # the name field is not a text: outside the property's quantifier
+                nm = text.split("\0")[0]      # the name ends at the NUL terminator when there is one
                 r = P.frame_chinfo_decode(DParseFrame(EParseId(3), raw), 1).data
                 got = (r.en, r._type, r.vdim, r.div, r.mlen, r.name, r.dtype, r.critical)
-                want = (raw[0] != 0, raw[1], raw[2], raw[3], raw[4], nm.decode(), raw[1] & 0x1F, bool(raw[1] & 0x80))
+                want = (raw[0] != 0, raw[1], raw[2], raw[3], raw[4], nm, raw[1] & 0x1F, bool(raw[1] & 0x80))
                 if got != want:
                     return bad("chinfo-decode", "chinfo decode", want, got)
             elif t[1] == "ack":
@@ -256,6 +541,14 @@ class C06(Prop):
                 a = P.frame_ack_decode(P.frame.frame_decode(f))
                 if (a.state, a.retcode) != ((r == 0), r):
                     return bad("ack-rt", "ack round trip", ((r == 0), r), (a.state, a.retcode))
+            elif t[1] == "dack" and int(t[2]) == 4:
+                raw = unhex(t[3])
+                if len(raw) != 4:
+                    return None
+                r = struct.unpack("<i", raw)[0]
+                a = P.frame_ack_decode(DParseFrame(EParseId(4), raw))
+                if (a.state, a.retcode) != ((r == 0), r):
+                    return bad("ack-decode", "ack decode", ((r == 0), r), (a.state, a.retcode))
         except Exception as e:
             return bad("raises", f"{type(e).__name__}: {e}", "no exception", exc_name(e))
         return None
